@@ -21,7 +21,7 @@ pub enum VOp {
 pub enum Case {
     /// enumerated: all run-length vectors for `nchroms` chromosomes (1..=max_run lines each) x
     /// one long line (x mult) at every position (or none) x final newline
-    IndexGrid { nchroms: u8, max_run: u8, mult: u8, final_newline: bool },
+    IndexGrid { nchroms: u8, max_run: u8, mult: u8, final_newline: bool, #[serde(default)] utf8: bool },
     /// one index / chunking / per-chromosome-view file: lines as (chromosome index, extra payload length)
     TextFile { lines: Vec<(u8, u32)>, final_newline: bool, grouped: bool },
     /// enumerated: all windows and all op sequences up to `max_ops` on a file of `len` bytes, window start `a`
@@ -38,6 +38,8 @@ fn tmp_path(tag: &str) -> std::path::PathBuf {
 }
 
 const NAMES: [&str; 8] = ["chr1", "chr2", "b", "zz", "chr10", "a", "X", "chrUn_1"];
+/// the same chromosomes with multi-byte UTF-8 names (text files are UTF-8, not ASCII)
+const NAMES_UTF8: [&str; 8] = ["chr1é", "世chr2", "ß", "zz世界", "chr10", "é", "Xé", "chrUn_世"];
 
 fn render(lines: &[(u8, u32)], final_newline: bool) -> (Vec<u8>, Vec<(u64, String)>, Vec<u64>) {
     // returns text, linear index of runs, line start offsets
@@ -45,7 +47,8 @@ fn render(lines: &[(u8, u32)], final_newline: bool) -> (Vec<u8>, Vec<(u64, Strin
     let mut idx: Vec<(u64, String)> = vec![];
     let mut starts = vec![];
     for (i, (c, extra)) in lines.iter().enumerate() {
-        let name = NAMES[*c as usize % NAMES.len()];
+        let utf8 = *c >= 100;
+        let name = if utf8 { NAMES_UTF8[(*c as usize - 100) % NAMES_UTF8.len()] } else { NAMES[*c as usize % NAMES.len()] };
         if idx.last().map(|l| l.1 != name).unwrap_or(true) {
             idx.push((text.len() as u64, name.to_string()));
         }
@@ -54,7 +57,12 @@ fn render(lines: &[(u8, u32)], final_newline: bool) -> (Vec<u8>, Vec<(u64, Strin
         text.extend_from_slice(format!("{}\t{}\t{}", name, s, s + 5).as_bytes());
         if *extra > 0 {
             text.push(b'\t');
-            text.extend(std::iter::repeat(b'x').take(*extra as usize));
+            if utf8 {
+                // 3-byte characters: any byte offset inside is not a char boundary
+                text.extend("世".repeat((*extra as usize + 2) / 3).as_bytes());
+            } else {
+                text.extend(std::iter::repeat(b'x').take(*extra as usize));
+            }
         }
         if i + 1 < lines.len() || final_newline {
             text.push(b'\n');
@@ -348,11 +356,12 @@ impl Prop for C18 {
             any::<bool>(),
             prop::bool::weighted(0.8),
             any::<u8>(),
+            prop::bool::weighted(0.3),
         )
-            .prop_map(|(runs, final_newline, grouped, rot)| {
+            .prop_map(|(runs, final_newline, grouped, rot, utf8)| {
                 let mut lines = vec![];
                 for (ci, (n, extra)) in runs.iter().enumerate() {
-                    let c = if grouped { ci as u8 } else { (ci as u8).wrapping_add(rot) % 3 };
+                    let c = if grouped { ci as u8 } else { (ci as u8).wrapping_add(rot) % 3 } + if utf8 { 100 } else { 0 };
                     for k in 0..*n {
                         // the long payload goes on one line of the run
                         lines.push((c, if k == n / 2 { *extra } else { 0 }));
@@ -395,7 +404,9 @@ impl Prop for C18 {
         for nchroms in 1..=maxc {
             for mult in [0u8, 3, 10, 40] {
                 for final_newline in [true, false] {
-                    v.push(Case::IndexGrid { nchroms, max_run: maxr, mult, final_newline });
+                    for utf8 in [false, true] {
+                        v.push(Case::IndexGrid { nchroms, max_run: maxr, mult, final_newline, utf8 });
+                    }
                 }
             }
         }
@@ -409,15 +420,15 @@ impl Prop for C18 {
     }
     fn check(case: &Case, obs: &mut Obs) -> Result<(), String> {
         match case {
-            Case::IndexGrid { nchroms, max_run, mult, final_newline } => {
-                obs.label("text-grid");
+            Case::IndexGrid { nchroms, max_run, mult, final_newline, utf8 } => {
+                obs.label(if *utf8 { "text-grid-utf8" } else { "text-grid" });
                 let path = tmp_path("idx");
                 for runs in run_lengths(*nchroms as usize, *max_run) {
                     let total: usize = runs.iter().map(|r| *r as usize).sum();
                     let base: Vec<(u8, u32)> = runs
                         .iter()
                         .enumerate()
-                        .flat_map(|(ci, r)| std::iter::repeat((ci as u8, 0u32)).take(*r as usize))
+                        .flat_map(|(ci, r)| std::iter::repeat((ci as u8 + if *utf8 { 100 } else { 0 }, 0u32)).take(*r as usize))
                         .collect();
                     let positions: Vec<Option<usize>> = if *mult == 0 { vec![None] } else { (0..total).map(Some).collect() };
                     for pos in positions {
